@@ -379,8 +379,15 @@ def double_rotation_table(prog, chk):
                 where = "%s:%s" % (f.file, f.line)
                 conds = [b for b in f.blocks.values() if b.get("cond") is not None and len(b["succ"]) == 2]
                 m = None
+                defs_j = q.local_defs(f)
                 for b in conds:
-                    for i in f.desc(b["cond"]):
+                    expr_j = b["cond"]
+                    cn_j = f.nodes[f.strip(expr_j)]
+                    if cn_j["k"] == "DeclRefExpr" and cn_j["ref"].get("dk") == "local":
+                        ini_j = q.single_def(f, cn_j["ref"]["id"], defs_j)      # `const bool leansRight = left->slope == -1; if(leansRight)`
+                        if ini_j is not None:
+                            expr_j = ini_j
+                    for i in f.desc(expr_j):
                         n = f.nodes[i]
                         if n["k"] == "MemberExpr" and n.get("m") == "slope":
                             mm = re.search(r"->(left|right)->slope$", q.no_casts(f.r(i)))
